@@ -27,3 +27,14 @@ func init() {
 			"\t\t\t\t} else if curIdx < sortedIdx {\n\t\t\t\t\treturn fmt.Errorf(\"conflicting callback %s with before %s\", c.name, c.after)", "\t\t\t\t} else if sortedIdx > curIdx {\n\t\t\t\t\treturn fmt.Errorf(\"conflicting callback %s with before %s\", c.name, c.after)"}}},
 	)
 }
+
+func init() {
+	addMutants(
+		Mutant{Name: "c17-sorter-without-recursion-bound", Property: "C17", Rule: "C17.recursion-bounded", Edits: []Edit{{"callbacks.go",
+			"\t\tif depth++; depth > 2*len(cs)+2 {\n\t\t\treturn fmt.Errorf(\"conflicting callback %s with circular before/after\", c.name)\n\t\t}\n", "\t\tdepth++\n"}}, Note: "reverts fix 64c738b"},
+		Mutant{Name: "c17-after-arm-overwrites-before", Property: "C17", Rule: "C17.keep-constraints", Edits: []Edit{{"callbacks.go",
+			"\t\t\t\tif after.before == \"\" {\n\t\t\t\t\tafter.before = c.name\n\t\t\t\t}", "\t\t\t\tafter.before = c.name"}}},
+		Mutant{Name: "n66-recursion-bound-as-visited-counter", Property: "*", Rule: "NEUTRAL", Edits: []Edit{{"callbacks.go",
+			"\t\tif depth++; depth > 2*len(cs)+2 {", "\t\tdepth += 1\n\t\tif limit := 2*len(cs) + 2; depth > limit {"}}},
+	)
+}
